@@ -57,3 +57,24 @@ package iqr
 //@   assumed
 //@   pure
 //@ end
+
+// reads one column value of one record: either a value or an error (ASSUMED:
+// the two are never both missing)
+//@ func (*Record).ReadColumn
+//@   assumed
+//@   pure
+//@   ensures implies(result1 == nil, result0 != nil)
+//@ end
+
+// C05/C06 (the result of sort does not depend on how the input is cut into
+// batches): merging sorted batches whose known-column sets differ back-fills
+// the column for the records of the batch that lacks it — the value written for
+// a record is never read through a nil pointer (Record.ReadColumn returns nil
+// together with its error).
+//@ func MergeIQRs
+//@   props C05 C06
+//@   assumecalleerequires
+//@   site call append #2:
+//@     assert [a-value-is-written-for-every-known-column-of-every-record] value != nil
+//@     assert [a-record-without-the-column-gets-a-back-fill-value-of-its-own] implies(err != nil, fresh(value))
+//@ end
